@@ -6,6 +6,7 @@
 From Coq Require Import List NArith ZArith Bool Sorted.
 From GS Require Import Chain ChainRef ChainTrace ChainWriter ChainMain.
 Import ListNotations.
+From GS Require RWriter RWriterProofs.
 Open Scope Z_scope.
 
 (* exec never runs out of fuel (nor addresses a missing handler) given fuel > number of handlers *)
@@ -179,3 +180,43 @@ Example C15_ex_wildcard_miss :
   exists c, ref [Wildcard [47; 97]%N; User [AWrite b_ok]] [47; 98]%N = Done c /\
             r_code (rc (c_w c)) = 404%N /\ enters (c_tr c) = [0] /\ r_body (rc (c_w c)) = msg404.
 Proof. eexists. split; [vm_compute; reflexivity|]. repeat split. Qed.
+
+(* ---------------------------------------------------------------------------------------------
+   Writer leg over an ARBITRARY underlying http.ResponseWriter (model/RWriter.v): for every sequence of
+   WriteHeader/Write calls on the wrapper and every behaviour of the underlying writer during them
+   (WriteHeader panicking or not; Write returning any (n, err), short writes and n>0-with-error included),
+   Size() is the sum of the n the underlying Write calls returned, Written() says whether the underlying
+   writer received anything, the underlying writer received at most one WriteHeader, and Status() is the
+   code of that WriteHeader (200 when a Write came first). *)
+Theorem C15_writer_any_underlying : forall ops,
+  let s := RWriter.run RWriter.init ops in
+  RWriter.g_size s = RWriter.body_bytes (RWriter.sent s) /\
+  RWriter.g_written s = RWriter.anything_sent (RWriter.sent s) /\
+  (RWriter.count_wh (RWriter.sent s) <= 1)%nat /\
+  (RWriter.g_written s = false ->
+     RWriter.g_status s = 0%Z /\ RWriter.g_size s = 0%Z /\ RWriter.sent s = []) /\
+  (forallb RWriterProofs.op_ok ops = true -> RWriter.g_written s = true ->
+     RWriter.first_status (RWriter.sent s) = Some (RWriter.g_status s)).
+Proof. exact RWriterProofs.getters_equal_sent. Qed.
+
+Theorem C15_writer_size_step : forall s len p n e s',
+  RWriter.step s (RWriter.OW len p n e) = (s', RWriter.OutWrite n e) ->
+  RWriter.g_size s' = (RWriter.g_size s + n)%Z.
+Proof. exact RWriterProofs.size_step. Qed.
+
+(* non-vacuity: a write that fails part-way (6 of 10 bytes... then 4 with an error) still counts *)
+Example C15_ex_partial_write_error :
+  let s := RWriter.run RWriter.init
+             [RWriter.OW 6 false 6 false; RWriter.OW 10 false 4 true; RWriter.OWH 404 false] in
+  RWriter.g_size s = 10%Z /\ RWriter.g_status s = 200%Z /\ RWriter.g_written s = true /\
+  forallb RWriterProofs.op_ok [RWriter.OW 6 false 6 false; RWriter.OW 10 false 4 true; RWriter.OWH 404 false] = true.
+Proof. vm_compute. repeat split. Qed.
+
+(* the guard (the underlying writer refuses status code 0, as net/http does) is needed *)
+Example C15_ex_status_zero :
+  let s := RWriter.run RWriter.init [RWriter.OWH 0 false] in
+  RWriter.first_status (RWriter.sent s) = Some 0%Z /\ RWriter.g_status s = 200%Z.
+Proof. exact RWriterProofs.status_zero_reports_200. Qed.
+
+Print Assumptions C15_writer_any_underlying.
+Print Assumptions C15_writer_size_step.
